@@ -748,6 +748,8 @@ func TestC13KnownFindings(t *testing.T) {
 type ToolCase struct {
 	Mode   string // listslots | readslot | attestslot
 	Remote bool
+	// Prelude: the same server object served a successful slot listing (another output) before this call
+	Prelude bool `json:",omitempty"`
 	Lines  []string
 	// Output overrides Lines when non-nil (arbitrary bytes).
 	Output  []byte `json:",omitempty"`
@@ -803,6 +805,7 @@ func (c ToolCase) output() []byte {
 func genTool(t *rapid.T) ToolCase {
 	c := ToolCase{Mode: rapid.SampledFrom([]string{"listslots", "listslots", "listslots", "readslot", "attestslot"}).Draw(t, "mode")}
 	c.Remote = rapid.IntRange(0, 5).Draw(t, "remote") == 0
+	c.Prelude = rapid.Bool().Draw(t, "prelude")
 	c.Exit = rapid.SampledFrom([]int{0, 0, 0, 0, 1, 2, 127}).Draw(t, "exit")
 	if c.Mode == "listslots" {
 		n := rapid.IntRange(0, 8).Draw(t, "nlines")
@@ -914,6 +917,17 @@ func execTool(c ToolCase) (vh.Outcome, error) {
 		return out, vh.Errf("NewServer(remote=%v): %v", c.Remote, err)
 	}
 	defer srv.Close()
+	if c.Prelude && !c.Remote {
+		// the same server object has served a slot listing before (another tool output, exit status 0): what this
+		// call returns comes from this call's tool run alone
+		os.WriteFile(filepath.Join(dir, "out"), []byte("Slot 9d:\nSlot f9:\n"), 0o644)
+		os.WriteFile(filepath.Join(dir, "rc"), []byte("0"), 0o644)
+		_ = catchWithin(30*time.Second, func() { _, _ = srv.ListSlots() })
+		os.WriteFile(filepath.Join(dir, "out"), output, 0o644)
+		os.WriteFile(filepath.Join(dir, "rc"), []byte(fmt.Sprint(c.Exit)), 0o644)
+		os.Remove(filepath.Join(dir, "args"))
+		out.Classes = append(out.Classes, "server-served-a-listing-before")
+	}
 	var slots []string
 	var cert *x509.Certificate
 	var opErr error
@@ -1014,7 +1028,7 @@ func execTool(c ToolCase) (vh.Outcome, error) {
 	return out, nil
 }
 
-const ruleTool = "the real NewServer(remote=false) with a fake yubico-piv-tool on PATH whose stdout and exit status come from the Case: status output of 0..8 lines (well-formed 'Slot xx:' lines, other status lines, 'Slot' lines of length 4..6, 'Slot' not followed by a space, non-ASCII, arbitrary bytes), exit status 0 / 1 / 2 / 127; read / attest with slot names (passed verbatim as arguments) and outputs {PEM certificate up to ~8 KiB (incl. the old-firmware encoding), with trailing whitespace, two blocks, empty, garbage}; and remote=true. Oracle: in order, bytes 5..7 of every line starting with 'Slot ' and at least 7 bytes long; lines not starting with 'Slot' contribute nothing; shorter or space-less 'Slot' lines must not crash and may contribute or not; non-zero exit => error; read / attest return the certificate byte-identically; remote mode => error for all three without running the tool; every call is repeated through a client connected to the server and must fail / succeed there exactly as on the server itself. Non-trivial: remote mode, non-zero exit, at least one expected slot, or a certificate result."
+const ruleTool = "the real NewServer(remote=false) with a fake yubico-piv-tool on PATH whose stdout and exit status come from the Case: status output of 0..8 lines (well-formed 'Slot xx:' lines, other status lines, 'Slot' lines of length 4..6, 'Slot' not followed by a space, non-ASCII, arbitrary bytes), exit status 0 / 1 / 2 / 127; read / attest with slot names (passed verbatim as arguments) and outputs {PEM certificate up to ~8 KiB (incl. the old-firmware encoding), with trailing whitespace, two blocks, empty, garbage}; and remote=true; in half of the cases the same server object has served a successful slot listing (other output) before. Oracle: in order, bytes 5..7 of every line starting with 'Slot ' and at least 7 bytes long; lines not starting with 'Slot' contribute nothing; shorter or space-less 'Slot' lines must not crash and may contribute or not; non-zero exit => error; read / attest return the certificate byte-identically; remote mode => error for all three without running the tool; every call is repeated through a client connected to the server and must fail / succeed there exactly as on the server itself. Non-trivial: remote mode, non-zero exit, at least one expected slot, or a certificate result."
 
 func TestC13Tool(t *testing.T) {
 	vh.Run(t, vh.Spec[ToolCase]{Property: "C13", Name: "TestC13Tool", Rule: ruleTool, Gen: genTool, Exec: execTool})
